@@ -54,9 +54,26 @@ class Config:
         return LEVEL_NAMES[l]
 
     def describe(self):
-        return dict(levels=self.levels, z=self.z, disks=self.disknames, blocksize=self.blocksize,
-                    hashsize=self.hashsize, hash=self.hashkind, splits=self.splits, contents=self.contents,
-                    parity_limit=self.parity_limit)
+        return dict(levels=self.levels, z=self.z, ndisks=self.ndisks, disknames=self.disknames, blocksize=self.blocksize,
+                    hashsize=self.hashsize, hashkind=self.hashkind, splits={str(k): v for k, v in self.splits.items()},
+                    contents=self.contents, parity_limit=self.parity_limit, autosave_at=self.autosave_at,
+                    nohidden=self.nohidden, rules=self.rules, pool=self.pool, extra_conf=self.extra_conf)
+
+    @staticmethod
+    def from_dict(d):
+        d = dict(d)
+        d["splits"] = {int(k): v for k, v in (d.get("splits") or {}).items()}
+        return Config(**d)
+
+    def short(self):
+        s = "%s%d/%dd" % ("z" if self.z else "L", self.levels, self.ndisks)
+        if self.hashsize != 16 or self.hashkind != "murmur3":
+            s += "/%s%d" % (self.hashkind[0], self.hashsize)
+        if self.splits:
+            s += "/split" + ",".join("%d:%d" % kv for kv in sorted(self.splits.items()))
+        if len(self.contents) > 1:
+            s += "/c%d" % len(self.contents)
+        return s
 
     def clone(self, **kw):
         c = Config(self.levels, self.z, self.ndisks, self.blocksize, self.hashsize, self.hashkind, self.splits,
@@ -384,12 +401,15 @@ class Lab:
         self.cfg = saved["cfg"]
 
     # ------------------------------------------------------------------ running commands
-    def base_opts(self):
+    def base_opts(self, cmd=None):
         o = ["--test-skip-device", "--test-skip-self", "--no-warnings", "--test-force-order-alpha",
              "-c", self.conf_path()]
-        if self.cfg.hashkind == "murmur3":
+        hk = self.cfg.hashkind
+        if cmd == "rehash":   # a migration needs a "best" hash different from the current one
+            hk = {"murmur3": "spooky2", "spooky2": "murmur3"}.get(hk, hk)
+        if hk == "murmur3":
             o.append("--test-force-murmur3")
-        elif self.cfg.hashkind == "spooky2":
+        elif hk == "spooky2":
             o.append("--test-force-spooky2")
         if self.cfg.parity_limit:
             o += ["--test-parity-limit", str(self.cfg.parity_limit)]
@@ -410,14 +430,14 @@ class Lab:
     def run(self, cmd, *args, env=None, det=True, trace=True, timeout=120, bracket=None, stdin=None, log=True,
             base=None, exe=None):
         """run `snapraid <opts> cmd args`.  det=True adds the single-threaded deterministic switches."""
-        argv = [exe or self.exe] + (self.base_opts() if base is None else list(base))
+        argv = [exe or self.exe] + (self.base_opts(cmd) if base is None else list(base))
         if det:
             argv += ["--test-io-cache", "1", "--test-skip-multi-scan"]
         logp = self.p("log", "run.log")
         if log:
             argv += ["-l", logp]
         argv += list(self.extra_opts)
-        argv += [str(a) for a in args]
+        argv += [str(a).replace("{root}", self.root) for a in args]
         argv.append(cmd)
         for f in (logp, self.p("log", "trace")):
             try:
@@ -426,6 +446,7 @@ class Lab:
                 pass
         bracket = self.bracket if bracket is None else bracket
         before = self.snap() if bracket else None
+        self.scan_versions(before)
         e = self.env(env, trace)
         if exe:
             e["VP_EXE"] = os.path.realpath(exe)
@@ -436,6 +457,8 @@ class Lab:
         except subprocess.TimeoutExpired as ex:
             rc, out, err = -999, ex.stdout or b"", (ex.stderr or b"") + b"\nTIMEOUT"
         after = self.snap() if bracket else None
+        if "--test-run" in args or cmd == "touch":
+            self.scan_versions(after)
         sig = -rc if rc < 0 and rc != -999 else None
         tags = taglog.Tags(_slurp(logp))
         tr = parse_trace(_slurp(self.p("log", "trace"))) if trace else []
@@ -443,6 +466,20 @@ class Lab:
         res = Result(cmd, argv, rc, out, err, tags, tr, before, after, sig)
         self.history.append((cmd,) + tuple(str(a) for a in args))
         return res
+
+    def scan_versions(self, snap=None):
+        """register every file identity currently present on the data disks in the version store
+        (covers changes made behind the lab's back, e.g. by a --test-run shell command)"""
+        if snap is None:
+            snap = self.snap()
+        for rel, e in snap.items():
+            if e[0] != "f" or e[3] is None:
+                continue
+            top, _, path = rel.partition("/")
+            if top in self.cfg.disknames and path:
+                v = self.versions.setdefault((top, path, e[1], e[2]), [])
+                if e[3] not in v:
+                    v.append(e[3])
 
     # ------------------------------------------------------------------ decoded views
     def content_bytes(self, idx=0):
